@@ -747,14 +747,12 @@ theorem roundHalfEven_err (N D : Nat) (hD : 0 < D) :
   · rw [hm, Nat.add_mul, Nat.one_mul, Nat.mul_comm (N / D) D, hP]
     omega
 
-/-- **Correct rounding, relative error ≤ 2⁻⁵³.** If `rneAt n d k` succeeds with `(m, e)` then, with
-`N / D = (n / d) · 2^k` the scaled fraction (`scaleBy`), there is an integer significand `m'` with
-`m' · 2^(-k) = m · 2^e`, `2^52 ≤ m < 2^53` (a normal binary64 significand), `|m'·D − N| ≤ D/2`
-(nearest) and hence `2^53 · |m'·D − N| ≤ N`, i.e. `|m·2^e − n/d| ≤ 2⁻⁵³ · n/d`.
-
-`_partial`: the statement is in cross-multiplied form over `Nat`; its reading as an inequality
-between rationals (`m·2^e` and `n/d`) is not derived in Lean (core `Rat` has no integer powers). -/
-theorem c19_rne_rel_err_partial (n d : Nat) (k : Int) (m : Nat) (e : Int)
+/-- The `Nat` form of correct rounding (the statement over ℚ, `c19_rne_rel_err`, is derived from it in
+`Props/C19Float.lean`). If `rneAt n d k` succeeds with `(m, e)` then, with `N / D = (n / d) · 2^k` the
+scaled fraction (`scaleBy`), there is an integer significand `m'` with `m' · 2^(-k) = m · 2^e`,
+`2^52 ≤ m < 2^53` (a normal binary64 significand), `|m'·D − N| ≤ D/2` (nearest) and hence
+`2^53 · |m'·D − N| ≤ N`. -/
+theorem c19_rneAt_nat_form (n d : Nat) (k : Int) (m : Nat) (e : Int)
     (h : rneAt n d k = some (m, e)) :
     ∃ m', ((m = m' ∧ e = -k) ∨ (m' = 2 ^ 53 ∧ m = 2 ^ 52 ∧ e = -k + 1)) ∧
       2 ^ 52 ≤ m ∧ m < 2 ^ 53 ∧
@@ -789,8 +787,8 @@ theorem c19_rne_rel_err_partial (n d : Nat) (k : Int) (m : Nat) (e : Int)
     · have := herr.2; omega
   · cases h
 
-/-- `rne` is `rneAt` at one of its two candidate exponents, so `c19_rne_rel_err_partial` applies to
-every value `rne` returns (in particular to all 435 constants of `c19_f64_ratio`). -/
+/-- `rne` is `rneAt` at one of its two candidate exponents, so `c19_rneAt_nat_form` applies to
+every value `rne` returns (in particular to all 435 constants of `c19_f64_ratio_representable`). -/
 theorem c19_rne_is_rneAt (n d m : Nat) (e : Int) (h : rne n d = some (m, e)) :
     ∃ k, rneAt n d k = some (m, e) ∧ -1022 ≤ e + 52 ∧ e + 52 ≤ 1023 := by
   unfold rne at h
@@ -811,7 +809,7 @@ theorem c19_rne_is_rneAt (n d m : Nat) (e : Int) (h : rne n d = some (m, e)) :
       · cases h
     · cases h
 
-/-- the checks of `c19_f64_ratio` for one pair, as a computation -/
+/-- the checks of `c19_f64_ratio_representable` for one pair, as a computation -/
 def ratioOk (p : Tag × Tag) : Bool :=
   match ratioND p.1 p.2 with
   | some (n, d) =>
@@ -825,7 +823,7 @@ def ratioOk (p : Tag × Tag) : Bool :=
 /-- **Every `RATIO` constant is representable**: for each of the 435 convertible pairs the exact
 ratio rounds (to nearest, ties to even) to a normal binary64 number, whose bit pattern the driver
 compares with the real `Convert::RATIO` on every run. -/
-theorem c19_f64_ratio (a b : Tag) (h : convertible a b = true) :
+theorem c19_f64_ratio_representable (a b : Tag) (h : convertible a b = true) :
     ∃ n d m e, ratioND a b = some (n, d) ∧ 0 < n ∧ 0 < d ∧ rne n d = some (m, e) ∧
       ratioBits a b = some (f64Bits m e) ∧ 2 ^ 52 ≤ m ∧ m < 2 ^ 53 := by
   have hall : convertiblePairs.all ratioOk = true := by decide +kernel
@@ -847,6 +845,117 @@ example : ratioBits (.second .milli) (.second .one) = some 0x3f50624dd2f1a9fc :=
 example : ratioBits (.data .byte .mega) (.data .bit .giga) = some 0x3f80624dd2f1a9fc := by decide +kernel  -- 0.008
 example : ratioBits (.data .bit .tera) (.data .byte .kilo) = some 0x419dcd6500000000 := by decide +kernel  -- 1.25e8
 example : ratioBits (.data .bit .one) (.data .bytePerSecond .tera) = some 0x3d419799812dea11 := by decide +kernel  -- 1.25e-13
+
+-- ------------------------------------------------------------------------------------------------
+-- every nesting of unit wrappers
+
+/-- a tower of unit wrappers `WithUnit<… WithUnit<WithUnit<V, t₁>, t₂> …, tₙ>` over a value with
+`V::Unit = src` that wrote `o`; `ratio` gives the `RATIO` constant of each step -/
+def wrapChain {α : Type} (A : Arith α) (ratio : Tag → Tag → α) (src : Tag) : List Tag → Out α → Out α
+  | [], o => o
+  | t :: ts, o => wrapChain A ratio t ts (withUnit A (ratio src t) src t o)
+
+/-- the tower type-checks: every step has a `Convert` impl -/
+def chainConvertible (src : Tag) : List Tag → Bool
+  | [] => true
+  | t :: ts => convertible src t && chainConvertible t ts
+
+/-- the outermost declared unit -/
+def chainLast (src : Tag) : List Tag → Tag
+  | [] => src
+  | t :: ts => chainLast t ts
+
+theorem convertible_to_none {a : Tag} (h : convertible a .none = true) : a = .none := by
+  cases a <;> simp [convertible, ratioND] at h ⊢
+
+theorem wrapChain_error {α : Type} (A : Arith α) (ratio : Tag → Tag → α) (src : Tag) (chain : List Tag)
+    (es : List Err) : wrapChain A ratio src chain (.error es) = .error es := by
+  induction chain generalizing src with
+  | nil => rfl
+  | cons t ts ih => simp only [wrapChain, withUnit]; exact ih t
+
+theorem wrapChain_nothing {α : Type} (A : Arith α) (ratio : Tag → Tag → α) (src : Tag) (chain : List Tag) :
+    wrapChain A ratio src chain .nothing = .nothing := by
+  induction chain generalizing src with
+  | nil => rfl
+  | cons t ts ih => simp only [wrapChain, withUnit]; exact ih t
+
+/-- **Any tower of unit wrappers keeps the quantity.** For every well-typed tower
+`src → t₁ → … → tₙ` (any length, any units) over an honest value of a unit `src ≠ None`, the outermost
+wrapper writes exactly the outermost declared unit, the same dimensions, as many observations, each
+with the same quantity (read in `tₙ` resp. in `src`) and the same occurrences. -/
+theorem c19_nested_wrappers (src : Tag) (chain : List Tag) (hsrc : src ≠ .none)
+    (hc : chainConvertible src chain = true) (obs : List (Obs Rat)) (dims : List (Nat × Nat)) :
+    ∃ obs', wrapChain ratArith ratioQ src chain (.metric obs src dims)
+        = .metric obs' (chainLast src chain) dims ∧
+      obs'.map (fun o => o.total ratArith * Spec.scale (chainLast src chain))
+        = obs.map (fun o => o.total ratArith * Spec.scale src) ∧
+      obs'.map Obs.occurrences = obs.map Obs.occurrences := by
+  induction chain generalizing src obs with
+  | nil => exact ⟨obs, rfl, rfl, rfl⟩
+  | cons t ts ih =>
+    simp only [chainConvertible, Bool.and_eq_true] at hc
+    have ht : t ≠ .none := fun h => hsrc (convertible_to_none (h ▸ hc.1))
+    obtain ⟨obs', h1, h2, h3⟩ := ih t ht hc.2 (obs.map (convertQ src t))
+    refine ⟨obs', ?_, ?_, ?_⟩
+    · simp only [wrapChain, chainLast, c19_with_unit_honest]; exact h1
+    · simp only [chainLast]
+      rw [h2, List.map_map]
+      apply List.map_congr_left
+      intro o _
+      exact (c19_convert_quantity src t hc.1 hsrc o).1
+    · rw [h3, List.map_map]
+      apply List.map_congr_left
+      intro o _
+      exact convert_occurrences _ _ _
+
+/-- The same for a unitless value: the first wrapper *declares* the unit (the numbers are kept
+as they are), from there on `c19_nested_wrappers` applies. -/
+theorem c19_nested_declare (t : Tag) (ts : List Tag) (obs : List (Obs Rat)) (dims : List (Nat × Nat)) :
+    wrapChain ratArith ratioQ .none (t :: ts) (.metric obs .none dims)
+      = wrapChain ratArith ratioQ t ts (.metric obs t dims) := by
+  simp only [wrapChain, c19_with_unit_honest]
+  congr 2
+  rw [List.map_congr_left (g := id) (fun o _ => c19_declare_keeps_observation t o), List.map_id]
+
+/-- **The emitted unit is exactly the outermost declared one** — for any arithmetic, any ratios,
+any tower with at least one wrapper and *whatever* the innermost value wrote. -/
+theorem c19_nested_unit {α : Type} (A : Arith α) (ratio : Tag → Tag → α) (src : Tag) (chain : List Tag)
+    (hne : chain ≠ []) (o : Out α) (obs' : List (Obs α)) (u : Tag) (dims' : List (Nat × Nat))
+    (h : wrapChain A ratio src chain o = .metric obs' u dims') : u = chainLast src chain := by
+  induction chain generalizing src o with
+  | nil => exact absurd rfl hne
+  | cons t ts ih =>
+    cases ts with
+    | nil =>
+      simp only [wrapChain] at h
+      exact (c19_with_unit_metric_only_if A _ src t o obs' u dims' h).1
+    | cons t' ts' =>
+      simp only [chainLast]
+      exact ih t (by simp) _ h
+
+/-- **A wrongly typed innermost value is an error through any tower**: a string, or a metric of
+another unit than promised, under at least one unit wrapper yields a validation error and no
+metric, however many wrappers follow. -/
+theorem c19_nested_errors {α : Type} (A : Arith α) (ratio : Tag → Tag → α) (src : Tag) (chain : List Tag)
+    (hne : chain ≠ []) (o : Out α)
+    (hbad : o = .str ∨ ∃ obs unit dims, o = .metric obs unit dims ∧ unit ≠ src) :
+    ∃ es, es ≠ [] ∧ wrapChain A ratio src chain o = .error es := by
+  cases chain with
+  | nil => exact absurd rfl hne
+  | cons t ts =>
+    simp only [wrapChain]
+    rcases hbad with rfl | ⟨obs, unit, dims, rfl, hu⟩
+    · exact ⟨[.unitOnString], by simp, by simp only [withUnit]; exact wrapChain_error _ _ _ _ _⟩
+    · refine ⟨[.mismatch src unit], by simp, ?_⟩
+      rw [(c19_errors A (ratio src t) src t).2.1 obs unit dims hu]
+      exact wrapChain_error _ _ _ _ _
+
+-- non-vacuity: 90 000 000 µs declared via ms, s, back to ms: 90 000 ms, unit Milliseconds
+example : wrapChain ratArith ratioQ (.second .micro) [.second .milli, .second .one, .second .milli]
+    (.metric [.unsigned 90000000] (.second .micro) [(0, 0)])
+    = .metric [.floating 90000] (.second .milli) [(0, 0)] := by decide +kernel
+example : chainConvertible (.second .micro) [.second .milli, .second .one, .second .milli] = true := by decide
 
 end Units
 
@@ -872,6 +981,10 @@ end Units
 #print axioms Units.c19_mean_quantity
 #print axioms Units.c19_mean_errors
 #print axioms Units.c19_duration_ms
-#print axioms Units.c19_rne_rel_err_partial
-#print axioms Units.c19_f64_ratio
+#print axioms Units.c19_rneAt_nat_form
+#print axioms Units.c19_f64_ratio_representable
 #print axioms Units.c19_rne_is_rneAt
+#print axioms Units.c19_nested_wrappers
+#print axioms Units.c19_nested_declare
+#print axioms Units.c19_nested_unit
+#print axioms Units.c19_nested_errors
